@@ -63,12 +63,23 @@ def forwarding(ctx, rule, qn, cal, want, key=None, absent_ok=()):
                     verdict, why, line = "UNDECIDED", "%s may travel through *args/**kwargs" % nm, e.line
             elif ok is False and callable(w):
                 verdict, why, line = "VIOLATED", "%s receives %s=%s" % (short, nm, show(g)[:80]), e.line
+            elif not callable(w) and Q.is_self_attr(w) and Q.is_self_attr(g) and g != w and not _is_property(ctx, qn, g[2]):
+                # configured from attribute X, but another attribute of the object is passed: typically a value cached by an earlier call
+                verdict, why, line = "VIOLATED", "%s receives %s=%s instead of %s (state kept from elsewhere, not the configured value)" % (short, nm, show(g)[:60], show(w)[:60]), e.line
             elif is_const(g) or any(canon(g) == canon(o) for o in want.values() if not callable(o)):
                 verdict, why, line = "VIOLATED", "%s receives %s=%s instead of %s" % (short, nm, show(g)[:60], show(w)[:60] if not callable(w) else "the expected value"), e.line
             elif verdict == "DISCHARGED":
                 verdict, why, line = "UNDECIDED", "%s=%s is not recognisably %s" % (nm, show(g)[:60], show(w)[:60] if not callable(w) else "the expected value"), e.line
         ctx.add(rule, "%s|%s|%s=" % (qn, key or short, nm), verdict,
                 why or "%s receives %s=%s on every path" % (short, nm, show(w)[:60] if not callable(w) else "the expected value"), fn=qn, line=line)
+
+
+def _is_property(ctx, qn, name):
+    f = ctx.pkg.functions.get(qn)
+    if f is None or f.cls is None:
+        return False
+    m = ctx.pkg.find_method(f.cls.qual, name)
+    return m is not None and m.is_property
 
 
 def literal_kw(ctx, rule, qn, cal, nm, value, default=None, family=None):
